@@ -65,6 +65,10 @@ def build(case):
     err_t = brk_t = None
     targets = list(nums)
     for num in nums:
+        if case.get("spacers") and num != nums[-1] and rng.random() < 0.2:
+            # a line that holds nothing but its number: still a line, and a legal jump target (control falls through)
+            prog.append((num, []))
+            continue
         stmts = [("print", [("e", ("str", "L%d" % num))], None)]
         k = rng.choice([0, 1, 1, 1, 2])
         last = False
@@ -125,7 +129,9 @@ def labels_and_markers(out):
             if s.k == "print" and s.items and s.items[0][0] == "e" and s.items[0][1][0] == "str":
                 marker = s.items[0][1][1]
             lab.setdefault(label, []).append(marker)
-    seq = [(s.k, getattr(s, "target", None), tuple(getattr(s, "targets", []) or [])) for s in main.body]
+    # a line that carries only its label is not a statement: with the label filter on it becomes an empty line
+    seq = [(s.k, getattr(s, "target", None), tuple(getattr(s, "targets", []) or [])) for s in main.body
+           if not (s.k == "rem" and not getattr(s, "text", ""))]
     return lab, inf.jumps, seq, None
 
 
@@ -221,6 +227,8 @@ def run_case(case):
     obs["counters"]["graphs_checked"] = 1
     obs["counters"]["references_checked"] = len(refs)
     handler = err_t is not None or brk_t is not None
+    spacers = {n for n, st in prog if not st}
+    obs["counters"]["spacer_lines"] = len(spacers)
     suffix = opts.get("add_suffix", True)
     # (a) every jump target labels exactly one line, and that line is the one from the source line
     for kind_j, target, idx in jumps:
@@ -231,9 +239,10 @@ def run_case(case):
                 v("C06/dispatcher/not-exactly-one-32700", count=len(lab.get(32700, [])))
             continue
         marks = lab.get(target, [])
+        spacer = target in spacers
         if len(marks) != 1:
             v("C06/target/%s/labels-%d-lines" % (kind_j, len(marks)), target=target)
-        elif marks[0] != "L%d" % target:
+        elif marks[0] != (None if spacer else "L%d" % target):
             v("C06/target/%s/wrong-line" % kind_j, target=target, marker=marks[0])
     emitted_targets = {t for k, t, i in jumps if t != 32700}
     src_refs = {r for r in refs if not (r in (err_t, brk_t) and r not in
@@ -273,7 +282,9 @@ def run_case(case):
                         first = ev[1][1] if len(ev) > 1 and ev[1][0] == "s" else None
                         break
                 obs["counters"]["dispatcher_runs"] = obs["counters"].get("dispatcher_runs", 0) + 1
-                if first != "L%d" % tgt:
+                # a handler line that holds only its number falls through to the next line with a statement
+                land = next((n for n, st in prog if n >= tgt and st), None)
+                if first != ("L%d" % land if land is not None else None):
                     v("C06/dispatcher/wrong-handler", code=code, want=tgt, reached=first, status=b["status"], error=b["error"])
     elif not handler and 32700 in lab:
         v("C06/dispatcher/unrequested")
@@ -289,7 +300,8 @@ OPTS = [{}, {"filter_unused_linenum": True}, {"add_suffix": False}, {"filter_unu
 def cases(tier, seed):
     n = 2500 if tier == "quick" else 200000
     for i in range(n):
-        yield {"kind": "graph", "seed": seed * 48271 + i, "opts": OPTS[i % len(OPTS)], "sample": i % 700 == 0, "big": i % 40 == 39}
+        yield {"kind": "graph", "seed": seed * 48271 + i, "opts": OPTS[i % len(OPTS)], "sample": i % 700 == 0, "big": i % 40 == 39,
+               "spacers": i % 5 == 2}
     for ln in (32698, 32699, 32700, 32701, 32767, 32768, 65535, 100000):
         for o in OPTS[:2]:
             yield {"kind": "boundary", "line": ln, "seed": ln, "opts": o}
